@@ -1,8 +1,63 @@
-import Ypv.Drv.Codec
-/-! Driver handler for C03 (stub: replaced by the module that models C03) -/
+import Ypv.Drv.C04
+/-! Driver handler for C03 (set / rename / histories / value typing tables). -/
 namespace Ypv.Drv.C03
 open Lean (Json)
+open Ypv Ypv.Drv Ypv.Drv.C04
 
-def handle (_op : String) (_j : Json) : Except String Json := throw "C03: driver not implemented yet"
+def typedToJson : Typed → Json
+  | .bool b => Json.mkObj [("k", "bool"), ("v", .bool b)]
+  | .none => Json.mkObj [("k", "null")]
+  | .int i => Json.mkObj [("k", "int"), ("v", toString i)]
+  | .float m e => Json.mkObj [("k", "float"), ("m", toString m), ("e", Json.num (Lean.JsonNumber.fromInt e))]
+  | .str => Json.mkObj [("k", "str")]
+  | .unmodelled => Json.mkObj [("k", "unmodelled")]
+
+def scalarOut : Except Err Scalar → Json
+  | .ok s => Json.mkObj [("ok", scalarToJson s)]
+  | .error e => Json.mkObj [("err", errToJson e)]
+
+def keyOf (j : Json) : Except String Key := do keyOfJson (← j.getObjVal? "key")
+
+def opOf (j : Json) : Except String Op := do
+  match ← getStr j "o" with
+  | "set" => pure (.set (← addrsOf j "addrs") (← scalarOfJson (← j.getObjVal? "v")) (← fmtOfName (← getStr j "fmt")))
+  | "delete" => pure (.delete (← addrsOf j "addrs"))
+  | "create" => pure (.create (← psegsOf j "segs") (← scalarOfJson (← j.getObjVal? "v")) (← fmtOfName (← getStr j "fmt")))
+  | s => throw s!"history op {s}"
+
+/-- the specification of one `set`: defined when the new scalar is defined for every target -/
+def specSet (d : Node) (addrs : List Addr) (v : Scalar) (fmt : Fmt) : Json :=
+  match newScalar false v fmt with
+  | .ok s => Json.mkObj [("ok", nodeToJson (setSpec d addrs s))]
+  | .error e => Json.mkObj [("err", errToJson e)]
+
+def handle (op : String) (j : Json) : Except String Json := do
+  match op with
+  | "set" =>
+    let d ← docOf j
+    let addrs ← addrsOf j "addrs"
+    let v ← scalarOfJson (← j.getObjVal? "v")
+    let fmt ← fmtOfName (← getStr j "fmt")
+    pure (Json.mkObj [("model", outToJson (setValue v fmt d addrs)), ("spec", specSet d addrs v fmt)])
+  | "rename" =>
+    let d ← docOf j
+    let addrs ← addrsOf j "addrs"
+    pure (Json.mkObj [("model", outToJson (renameKeys (← keyOf j) d addrs))])
+  | "typed" => pure (typedToJson (typedValue (s2l (← getStr j "t"))))
+  | "newscalar" =>
+    let v ← scalarOfJson (← j.getObjVal? "v")
+    let fmt ← fmtOfName (← getStr j "fmt")
+    pure (Json.mkObj [("plain", scalarOut (newScalar false v fmt)), ("anchored", scalarOut (newScalar true v fmt)),
+      ("wrap", scalarOut (wrapType v))])
+  | "history" =>
+    let d ← docOf j
+    let ops ← (← getArr j "ops").toList.mapM opOf
+    let rec go (d : Node) : List Op → List Json
+      | [] => []
+      | o :: os => match o.apply d with
+        | .ok d' => Json.mkObj [("ok", nodeToJson d')] :: go d' os
+        | .error e => Json.mkObj [("err", errToJson e)] :: go d os
+    pure (Json.mkObj [("steps", Json.arr (go d ops).toArray), ("plain", nodeToJson (runOps d ops).plain)])
+  | _ => throw s!"C03: unknown op {op}"
 
 end Ypv.Drv.C03
